@@ -1,7 +1,7 @@
 #!/bin/bash
 # sweep.sh <tier> [props...]: run the registered checks one after another, print exit code and wall time.
 TIER=${1:-quick}; shift
-PROPS=${@:-C01 C02 C03 C05 C06 C07 C08 C11 C12 C13 C14 C15 C17 C19 C20}
+PROPS=${@:-C01 C02 C03 C05 C06 C07 C08 C09 C11 C12 C13 C14 C15 C17 C19 C20}
 cd /verif
 for p in $PROPS; do
   t0=$(date +%s); ./check $p --tier $TIER > /var/tmp/sweep-$p-$TIER.log 2>&1; rc=$?; t1=$(date +%s)
